@@ -637,7 +637,15 @@ func (fv *FuncVerifier) checkPost(st *State, final []Val, at ast.Node) {
 	}
 	for i, en := range fv.contract.Ensures {
 		g := env.eval(en.Expr)
+		nb := len(fv.obls)
 		fv.oblige(st, "post", fmt.Sprintf("[%s] %s", clauseName(en, i), en.Text), g.T)
+		if len(fv.obls) > nb && len(fv.contract.GhostRet) > 0 {
+			o := fv.obls[len(fv.obls)-1]
+			o.GhostRet = map[string]string{}
+			for _, gr := range fv.contract.GhostRet {
+				o.GhostRet[gr.Name] = env.vars[gr.Name].T
+			}
+		}
 	}
 	// lock balance: every lock acquired by the function is released on return
 	var lks []string
